@@ -275,8 +275,22 @@ where
 
         let mut remaining = num_base_steps;
         let mut time = 0.0;
+        #[cfg(nuts_rs_verif)]
+        crate::verif::emit("mclmc", || {
+            crate::verif::json!({"ev": "mstart", "num_base": num_base_steps, "maxh": max_halvings,
+                "resample": resample_velocity,
+                "kind": format!("{:?}", self.hamiltonian.kinetic_energy_kind),
+                "eps": crate::verif::bits(base_step_size),
+                "length": self.hamiltonian.momentum_decoherence_length(),
+                "freq": self.subsample_frequency,
+                "ph": crate::verif::hash_f64s(&math.box_array(current.point().position())),
+                "vnorm2": crate::verif::bits(math.array_vector_dot(
+                    &current.point().velocity, &current.point().velocity))})
+        });
 
         while remaining > 0 {
+            #[cfg(nuts_rs_verif)]
+            let verif_pre = (factor, remaining, remaining_stack.len());
             // Store the current momentum in case we need to try again
             // with smaller step size
             math.copy_into(&current.point().velocity, &mut self.tmp_velocity);
@@ -322,6 +336,13 @@ where
                     steps_taken += 1;
                     remaining -= 1;
                     time += factor * base_step_size;
+                    #[cfg(nuts_rs_verif)]
+                    crate::verif::emit("mclmc", || {
+                        crate::verif::json!({"ev": "mstep", "res": "ok", "factor": verif_pre.0,
+                            "remaining": verif_pre.1, "depth": verif_pre.2, "steps": steps_taken,
+                            "vnorm2": crate::verif::bits(math.array_vector_dot(
+                                &current.point().velocity, &current.point().velocity))})
+                    });
 
                     while remaining == 0 {
                         if let Some(prev_remaining) = remaining_stack.pop() {
@@ -335,9 +356,19 @@ where
                 LeapfrogResult::Divergence(info) => {
                     if remaining_stack.len() >= max_halvings.try_into().unwrap() {
                         // Genuinely diverged — give up.
+                        #[cfg(nuts_rs_verif)]
+                        crate::verif::emit("mclmc", || {
+                            crate::verif::json!({"ev": "mstep", "res": "giveup", "factor": verif_pre.0,
+                                "remaining": verif_pre.1, "depth": verif_pre.2, "steps": steps_taken})
+                        });
                         divergence_info = Some(info);
                         break;
                     }
+                    #[cfg(nuts_rs_verif)]
+                    crate::verif::emit("mclmc", || {
+                        crate::verif::json!({"ev": "mstep", "res": "div", "factor": verif_pre.0,
+                            "remaining": verif_pre.1, "depth": verif_pre.2, "steps": steps_taken})
+                    });
                     // Halve the step size and require 2 successful steps before
                     // we're allowed to double back.
                     factor *= 0.5;
@@ -380,6 +411,14 @@ where
                 reached_maxdepth: false,
             };
             self.collector.register_draw(math, &current, &sample_info);
+            #[cfg(nuts_rs_verif)]
+            crate::verif::emit("mclmc", || {
+                crate::verif::json!({"ev": "mend", "div": true, "steps": steps_taken,
+                    "time": crate::verif::bits(time),
+                    "ph": crate::verif::hash_f64s(&math.box_array(next_state.point().position())),
+                    "vnorm2": crate::verif::bits(math.array_vector_dot(
+                        &next_state.point().velocity, &next_state.point().velocity))})
+            });
             return Ok((next_state, info));
         }
 
@@ -405,6 +444,14 @@ where
             average_step_size: time / steps_taken.to_f64().unwrap(),
         };
 
+        #[cfg(nuts_rs_verif)]
+        crate::verif::emit("mclmc", || {
+            crate::verif::json!({"ev": "mend", "div": false, "steps": steps_taken,
+                "time": crate::verif::bits(time),
+                "ph": crate::verif::hash_f64s(&math.box_array(current.point().position())),
+                "vnorm2": crate::verif::bits(math.array_vector_dot(
+                    &current.point().velocity, &current.point().velocity))})
+        });
         Ok((current, info))
     }
 }
@@ -503,6 +550,11 @@ where
         {
             self.hamiltonian
                 .set_kinetic_energy_kind(KineticEnergyKind::Microcanonical);
+            #[cfg(nuts_rs_verif)]
+            crate::verif::emit("mclmc", || {
+                crate::verif::json!({"ev": "mswitch", "draw": self.draw_count,
+                    "switch_draw": self.switch_draw})
+            });
             true
         } else {
             false
